@@ -36,6 +36,20 @@ pub struct SupplyTrace {
     /// the verdict must not depend on how the bytes of the link files arrive
     #[serde(default)]
     pub read_faults: Option<(u64, u64)>,
+    /// the metadata transport preserves time stamps: every delivered file has one fixed mtime
+    #[serde(default)]
+    pub fixed_mtime: bool,
+    /// how the caller names the link directory: 0 absolute, 1 relative ("../links"),
+    /// 2 through a symbolic link and "..": <scratch>/stage/../links with stage -> real/stage, so that
+    /// the kernel resolves it to <scratch>/real/links while <scratch>/links is an unrelated (decoy) directory
+    #[serde(default)]
+    pub link_dir_style: u8,
+    /// symbolic links present in the verifier's working directory (name, target)
+    #[serde(default)]
+    pub work_links: Vec<(String, String)>,
+    /// the verifier's TZ environment variable (a POSIX zone string; None = "UTC0")
+    #[serde(default)]
+    pub tz: Option<String>,
 }
 
 pub struct SupplyOutcome {
@@ -79,6 +93,8 @@ pub fn run_supply(t: &SupplyTrace, scratch: &Scratch) -> SupplyOutcome {
             (label, public)
         })
         .collect();
+    // the local time zone is configuration of the verifying host; absolute instants must not care
+    std::env::set_var("TZ", t.tz.as_deref().unwrap_or("UTC0"));
     let mut verdicts = vec![];
     let mut events = vec![];
     let mut work_after = vec![];
@@ -88,21 +104,47 @@ pub fn run_supply(t: &SupplyTrace, scratch: &Scratch) -> SupplyOutcome {
     for (rep, hs) in t.hash_seeds.iter().enumerate() {
         scratch.reset_dirs();
         write_actor_scripts(&t.root, &scratch.side());
-        for (n, c) in &t.work_files {
-            let p = scratch.work().join(n);
-            if let Some(d) = p.parent() {
-                let _ = std::fs::create_dir_all(d);
+        // the working directory's entries are created in an order drawn from the repetition's arrival
+        // seed (directory enumeration order on tmpfs follows creation order)
+        {
+            let arrival = if t.arrivals.is_empty() { 0 } else { t.arrivals[rep % t.arrivals.len()] };
+            let mut entries: Vec<(bool, &String, &String)> = t.work_files.iter().map(|(n, c)| (false, n, c)).collect();
+            entries.extend(t.work_links.iter().map(|(n, target)| (true, n, target)));
+            crate::prng::Rng::stream(arrival, "work-order").shuffle(&mut entries);
+            for (is_link, n, c) in entries {
+                let p = scratch.work().join(n);
+                if let Some(d) = p.parent() {
+                    let _ = std::fs::create_dir_all(d);
+                }
+                if is_link {
+                    let _ = std::os::unix::fs::symlink(c, &p);
+                } else {
+                    std::fs::write(p, c).expect("work file");
+                }
             }
-            std::fs::write(p, c).expect("work file");
         }
         let arrival = if t.arrivals.is_empty() { 0 } else { t.arrivals[rep % t.arrivals.len()] };
-        let m = materialise(&stored, &scratch.links(), arrival, fired.clone()).expect("materialise");
-        let links = if t.rel_link_dir { std::path::PathBuf::from("../links") } else { scratch.links() };
+        // where the link files really are, and what the caller passes
+        let (real_links, passed): (std::path::PathBuf, std::path::PathBuf) = if t.link_dir_style == 2 {
+            let real = scratch.root.join("real");
+            let _ = std::fs::remove_dir_all(&real);
+            let _ = std::fs::remove_file(scratch.root.join("stage"));
+            std::fs::create_dir_all(real.join("stage")).expect("real/stage");
+            let _ = std::os::unix::fs::symlink("real/stage", scratch.root.join("stage"));
+            (real.join("links"), scratch.root.join("stage/../links"))
+        } else if t.rel_link_dir || t.link_dir_style == 1 {
+            (scratch.links(), std::path::PathBuf::from("../links"))
+        } else {
+            (scratch.links(), scratch.links())
+        };
+        let decoy = scratch.links();
+        let m = materialise(&stored, &real_links, arrival, fired.clone(), t.fixed_mtime, if t.link_dir_style == 2 { Some(decoy.as_path()) } else { None }).expect("materialise");
+        let links = passed;
         let work = scratch.work();
         let armed = match t.read_faults {
             Some((short, eintr)) if rep % 2 == 1 => {
                 use std::os::unix::fs::MetadataExt;
-                let dev = std::fs::metadata(scratch.links()).map(|m| m.dev()).unwrap_or(0);
+                let dev = std::fs::metadata(&scratch.root).map(|m| m.dev()).unwrap_or(0);
                 crate::seams::read_arm(dev, *hs, short, eintr, 0);
                 true
             }
